@@ -15,6 +15,8 @@ def run(rep, tier, seed):
         "composition with C06 gives the wire-level statement",
     ]
     run_contracts(rep, "contracts.ofxget", tier, seed)
+    # what the client then makes of the requests handed over (builders, dispatch arms, assembly): the C06 contracts, run here too
+    run_contracts(rep, "contracts.client_compose", tier, seed, select=lambda c: "trnrq" in c.target or "wrap_stmtrq" in c.target or "request_statements" in c.target, accept_props=["C06"])
     run_contracts(rep, "contracts.ofxget_cli", tier, seed)
     run_contracts(rep, "contracts.ofxget_discover", tier, seed)
     run_contracts(rep, "contracts.ofxget_native", tier, seed)
